@@ -107,6 +107,7 @@ UNIT_DRIVERS = {
     "pipeline_failure": ["commit::fault_enum"],
     "restore_protocol": ["levels::checkpoint_enum_quick"],
     "dir_lock": ["exclusive_enum_quick"],
+    "wal_sticky": ["wal::log_enum_quick"],
     "vlog_file": ["sstable::table::min_vlog_file_id_enum"],
     "lock_order": ["transaction::cursor_enum_quick"],
 }
